@@ -53,6 +53,13 @@ CLAIMS = {
          'floor((X + q_k/2)/q_k) mod q_i (round to nearest, identically in every component), respectively Y mod q_i with q_k*Y = X (mod t) for the BGV variant. '
          'The NTT-form variants (divide_and_round_q_last_ntt_inplace, mod_t_and_divide_q_last_ntt_inplace) are proved word by word against the same formulas with the forward/inverse transforms as uninterpreted functions of (table, input) with their documented ranges: the rounding constant q_k/2, its correction, the negation and q_k^-1 steps and the table index used for each component are pinned. '
          'ASSUMED: the constants RNSTool::new stores (inv_q_last_mod_q etc.) equal their definitions; linearity of the NTT (so the NTT-form result is the transform of the coefficient-form result) is not used or proved. Not covered yet: decompose/compose (CRT), fast base conversion, the BEHZ tools (sm_mrq, fast_floor, fastbconv_sk), scale-and-round decryption, exact_convey (uses f64).', '5 C10'),
+ 'C16': ('Two groups of contracts. (1) BlakeRNG as a data structure with an abstract view: the generator is a position in ONE byte stream determined by the seed (block c of the stream is the BLAKE3 XOF of seed||le64(c), the XOF being an uninterpreted function); '
+         'representation invariant (the buffer holds block counter-1, buffer_current bytes consumed) established by from_seed and preserved by refill_buffer, fill_bytes, next_u32, next_u64; fill_bytes hands out exactly the next |dest| stream bytes and advances the position by |dest| '
+         '(so output does not depend on how reads are chunked: a corollary of the contract), next_u32/next_u64 read the next 4/8-aligned little-endian word. '
+         '(2) Samplers: sample::ternary stores one value of {-1,0,1} per coefficient, identically in every RNS component; the centered-binomial closure yields |e| <= 21 (Hamming weights of 21+21 random bits; hamming_weight proved equal to the bit count) '
+         'and the sampling loop stores e identically in every component (for moduli > 21: RESTRICTION found by the proof, see DESIGN.md); sample::uniform stays below each modulus. '
+         'ASSUMED: the blake3 and rand crates (support of Uniform only), the unsafe unaligned-pointer word reads modelled as little-endian. '
+         'Not covered: statistical quality / distinctness between seeds / freshness of entropy (not expressible as a contract), encrypt_zero plumbing, seed expansion of ciphertexts and keys.', '5 C16'),
  'C15': ('Serializers without context (scalars, Vec<T>, Modulus, ParmsID, SchemeType, Plaintext, EncryptionParameters, byte-width packing helpers) are verified '
          'against an abstract model of std::io::{Read,Write} quantified over all implementations: Ok implies the complete encoding was written / exactly one encoding '
          'consumed, and no unwrap/panic is reachable. Context-dependent objects (ciphertexts, keys, containers) are not covered.', '5 C15'),
@@ -65,7 +72,7 @@ NOT_APPLICABLE = {
  'C18': 'agreement across n parties and all message delivery orders is a whole-history property; the per-call code sits behind iterator closures, context plumbing and serialization and no contract within reach connects it to "keys correspond to the sum of secret keys"',
 }
 
-PENDING = ['C01', 'C04', 'C07', 'C09', 'C11', 'C12', 'C13', 'C16', 'C19', 'C20']
+PENDING = ['C07', 'C11', 'C12', 'C13', 'C19', 'C20']
 
 
 def main():
